@@ -483,9 +483,9 @@ func (p *c20) Enumerate(tier string) [][]int32 { return p.drv.enumerate(tier) }
 
 func (p *c20) RandomRuns(tier string) int {
 	if tier == "thorough" {
-		return 1500000
+		return 6000000
 	}
-	return 60000
+	return 200000
 }
 
 func (p *c20) Extra() map[string]interface{} { return p.drv.extra() }
@@ -561,8 +561,11 @@ func (s *c20Side) addFn(name, kind string, m *c20Model) {
 }
 
 func (p *c20) Run(c *verifsim.Chooser, st *Stats, render bool) *Outcome {
-	if c.Intn(4) == 1 {
+	switch c.Intn(6) {
+	case 1:
 		return p.drv.run(c, st, render)
+	case 2, 3:
+		return p.runOptDiff(c, st, render)
 	}
 	return p.runAPI(c, st, render)
 }
